@@ -76,7 +76,39 @@ def overlap_kinds(convs):
     return kinds
 
 
+def at_scale_case(ctx, g, rng):
+    """chain / get_subconverter on converters far above any plausible threshold (monitors as usual)."""
+    api, S = ctx.api, probe.S
+    n = rng.choice([150, 400]) if ctx.tier == "thorough" else 90
+    a = gen.large_records(rng, n)
+    # the second converter re-describes a third of the first one's records under other names (merges through URI
+    # prefixes and through synonyms) and brings records of its own
+    b = []
+    for i, r in enumerate(rng.sample(a, k=n // 3)):
+        if i % 2:
+            b.append(spec.Rec(f"q{i}", r.uri_prefix, (), (f"http://q/{i}/",), None))
+        else:
+            b.append(spec.Rec(r.prefix, f"http://q/{i}#", (f"Q{i}",), (), None))
+    b += [spec.Rec(f"own{i}", f"http://own/{i}/", (), (), None) for i in range(n // 3)]
+    with probe.monitor_mode():
+        ca = api.Converter([gen.mk_record(api, r) for r in a])
+        cb = api.Converter([gen.mk_record(api, r) for r in b])
+    o = call(api.chain, [ca, cb], case_sensitive=rng.random() < 0.7)
+    S.counters[f"wl:at-scale:n{n}:{o[0]}"] += 1
+    if o[0] == "ret":
+        res = o[1]
+        for r in rng.sample(a, k=8) + rng.sample(b, k=8):
+            call(res.expand, r.prefix + ":1")
+            call(res.compress, r.uri_prefix + "1")
+        P = [r.prefix for r in rng.sample(a, k=40)] + ["Q0", "zz"]
+        call(res.get_subconverter, P)
+        call(res.get_subconverter, ctx.pd.Series(P, dtype=object))
+    probe.note_key(f"at-scale:n{n}:{o[0]}", True)
+
+
 def run_case(ctx, g, rng):
+    if g % 90 == 90 - 1:
+        return at_scale_case(ctx, g, rng)
     api, S = ctx.api, probe.S
     n = rng.choice([1, 2, 2, 3, 3, 4])
     convs = [gconv(rng) for _ in range(n)]
